@@ -110,7 +110,7 @@ theorem big_prim {E : Env S Unit π} {rank} {Good} (L : Law E rank Good) {H0 : N
   | loop_done h => intro _ _ _ _ hp; exact hp
   | @loop_step s s1 s' F args nt i argsLen info s2 ai r r' x h hai hq hc hda hb ihq ihb =>
     intro hf hspre _ hpre hP
-    obtain ⟨hf3, f3, m3, _, _, hgai, c1⟩ := loop_iter L hai h hq (fun a b c d => big_core L hq a b c d) hf hspre hpre
+    obtain ⟨hf3, f3, m3, _, _, hgai, c1, _⟩ := loop_iter L hai h hq (fun a b c d => big_core L hq a b c d) hf hspre hpre
     obtain ⟨ra, hr, hgl, hlen, hinfo⟩ := id hspre
     obtain ⟨hinf, a, ha, hs2⟩ := hinfo h
     have hqpre : OPre E H0 (.query s2 (some ai)) s := by
@@ -134,7 +134,7 @@ theorem big_prim {E : Env S Unit π} {rank} {Good} (L : Law E rank Good) {H0 : N
     exact ihb hf3 (spre_next hspre h hc hgai hda) trivial hopre' hP3
   | @loop_last s s1 F args nt i argsLen info s2 ai r h hai hq hc ihq =>
     intro hf hspre _ hpre hP
-    obtain ⟨_, _, _, _, _, _, c1⟩ := loop_iter L hai h hq (fun a b c d => big_core L hq a b c d) hf hspre hpre
+    obtain ⟨_, _, _, _, _, _, c1, _⟩ := loop_iter L hai h hq (fun a b c d => big_core L hq a b c d) hf hspre hpre
     obtain ⟨ra, hr, hgl, hlen, hinfo⟩ := hspre
     obtain ⟨hinf, a, ha, hs2⟩ := hinfo h
     have hqpre : OPre E H0 (.query s2 (some ai)) s := by
